@@ -201,6 +201,12 @@ def _substitute_original_strings(original_source: str, new_source: str) -> str:
             prefix = "".join(sorted(new_modifiers, key="frb".index))
             most_common_original_formatting = most_common_original_formatting.lstrip("brf")
             most_common_original_formatting = prefix + most_common_original_formatting
+            # The same text with another prefix may be another string, r"\b" and "\b" for example
+            if not (
+                core.is_valid_python(most_common_original_formatting)
+                and core.match_template(core.parse(most_common_original_formatting), template)
+            ):
+                continue
 
         replacements[node] = most_common_original_formatting
 
